@@ -179,6 +179,27 @@ def build(ctx):
                                         cap=ctx.q(300, 900), meta={"big_loops": ["ref_walk_%s.%d" % (msg.name, k) for k in range(16)]},
                                         desc="message %s.%s level %s: getters %s == byte-level reference decode; buffer unchanged" % (sch.ns, msg.name, lv.name, [a[0] for a in chunk]),
                                         bounds={"N": N, "G": G, "D": D, "std": "c++" + std, "build": mode, "byte_order": "BE" if sch.be else "LE"}))
+    # cursor-based getters (the usual way of decoding in order) meet the same obligation from the position the member requires: same value / view as the reference decode, documented end position
+    import c04
+    for (xml, std, mode) in ([p_ for p_ in plan(ctx) if p_[0] in ("vs_msg_le.xml", "vs_msg2_be.xml")][:2] if ctx.quick else [p_ for p_ in plan(ctx) if p_[0].startswith("vs_msg")]):
+        sch, inc = gen_any(ctx, xml)
+        for msg in sch.messages:
+            if ctx.quick and (msg.name in QUICK_SKIP or any(gr.groups for gr in msg.groups)): continue
+            g = msggen.MG(sch, msg, G)
+            uc = ctx.lower("c02cur_%s_%s" % (sch.ns, msg.name), g.cpp_prelude() + g.cpp_cursor(), std=std, mode=mode, incs=[inc])
+            N = g.max_size(0, D) + 1
+            dynamic = bool(msg.groups or msg.data)
+            for lv in g.levels:
+                carms = c04.arms_for(g, lv, mode == "checked")
+                if not carms: continue
+                groups = [[a] for a in carms] if dynamic else [carms[j:j + 5] for j in range(0, len(carms), 5)]
+                for k, chunk in enumerate(groups):
+                    nm = chunk[0][0] if dynamic else str(k)
+                    hs.append(P.Harness("%s_%s_%s_cursor_%s_%s_cxx%s" % (sch.ns, msg.name, lv.name, nm, mode, std), c04.harness(uc, g, chunk, N, 0, D), [uc], unwind=G + 2,
+                                        cap=ctx.q(300, 900), backends=["minisat", "kissat"], extra_flags=["--no-standard-checks"],
+                                        meta={"big_loops": ["ref_walk_%s.%d" % (msg.name, x) for x in range(16)]},
+                                        desc="message %s.%s level %s: cursor-based getter(s) %s (plain, init, dont_move, init_dont_move, skip) return what the reference decode gives at the reference position" % (sch.ns, msg.name, lv.name, [a[0] for a in chunk]),
+                                        bounds={"N": N, "G": G, "D": D, "std": "c++" + std, "build": mode, "byte_order": "BE" if sch.be else "LE"}))
     # extreme data length: the member after a <data> whose length is anywhere in 0..255 (uint8 length type)
     for (xml, std, mode) in plan(ctx)[:2 if ctx.quick else None]:
         if os.path.isabs(xml): continue
